@@ -345,6 +345,11 @@ def run_stmt(s, regs, ins, outs, st):
         st["snap"][d] = (plain(v),)
         st["vals"].append((st["pc"], plain(v)))
         out_val(v, outs)
+        # formatting a value (debug output, error messages) is an observation: it allocates nothing and emits nothing
+        n0 = (len(R.pubs), len(R.privs), len(R.cons))
+        try: repr(v); str(v)
+        except Exception: pass
+        if (len(R.pubs), len(R.privs), len(R.cons)) != n0: st.setdefault("format_effects", []).append(st["pc"])
         for q in regs: st["coh"] += coherent(regs[q], R.P, st["w"])
 
 
@@ -398,7 +403,7 @@ def run_case(case):
            "shape": [D.digest_cons(p, cons), "".join(R.kinds), D.digest_outs(p, [(t, 0, l) for t, v, l in outs if t > 0])],
            "ggh_coeffs": st.get("ggh_coeffs"), "guard_conds": st["guard_conds"][:50], "snark_returns": st["snark_returns"][:20], "pubs_order": list(R.pubs)[:200], "final_bvals": st["final_bvals"],
            "globals": [rt.guard is None, bool(rt._ignore_errors), LinComb.ONE is ONE0],
-           "config": [rt.bitlength, fx.resolution],
+           "config": [rt.bitlength, fx.resolution], "format_effects": st.get("format_effects", [])[:5],
            "final_regs": {str(k): plain(v) for k, v in list(st.get("regs", {}).items())[:200]},
            "vals": st["vals"][:300], "probes": st["probes"][:50], "exn_ctx": st["exn_ctx"], "exn_pc": st.get("exn_pc")}
     if REAL and case.get("prove"):
